@@ -14,8 +14,8 @@ import time
 from harness import core
 
 PROP = 'C01'
-UNITS = ['Skel']
-PROOFS = ['theories/Child/Proofs.v', 'theories/Child/ProofsRemote.v']
+UNITS = ['Skel', 'RemoteLive']
+PROOFS = ['theories/Child/Proofs.v', 'theories/Child/ProofsRemote.v', 'theories/Ctrl/RemoteLive.v']
 HEADER = 'From PW Require Import Child.Sem Gen.Skel Child.Runs Child.Run.\n'
 
 TARGETS = ['TReturn', 'TRaise', 'TRaiseBase', 'TLoop']
